@@ -341,7 +341,7 @@ def _c09_specs(tier):
 
 def _c08_specs(tier):
     if tier == 'quick':
-        return [('c08-all-len1', ['--set', 'all', '--len', '1'], 4), ('c08-core-len2', ['--set', 'core', '--len', '2']), ('c08-proto-len4', ['--set', 'proto', '--len', '4']),
+        return [('c08-all-len1', ['--set', 'all', '--len', '1', '--bigprobe', '1'], 4), ('c08-core-len2', ['--set', 'core', '--len', '2']), ('c08-proto-len4', ['--set', 'proto', '--len', '4']),
                 ('c08-two-core-len2', ['--set', 'core', '--len', '2', '--two', '1'])] + [
                     ('c08-synth-%s-proto-len3' % sc, ['--set', 'proto', '--len', '3', '--synth', sc], 3) for sc in ('semi', 'ms')] + [
                     # a cap on active HMMs that the probe grammar exceeds: the search narrows its beams dynamically
@@ -350,17 +350,17 @@ def _c08_specs(tier):
                     ('c08-nofiller-proto-len3', ['--set', 'proto', '--len', '3', '--cfg', 'fsgusefiller=no'], 4),
                     ('c08-boot-nogram-len3', ['--set', 'boot', '--len', '3', '--nogram', '1'], 10),
                     # whole-utterance and streaming calls of the whole recording mixed on one decoder
-                    ('c08-batchstream-len3', ['--set', 'batchstream', '--len', '3'], 8),
+                    ('c08-batchstream5-len3', ['--set', 'batchstream', '--batchstream-ops', '5', '--len', '3', '--bigprobe', '1'], 8),
                     # a differently configured second decoder that decoded first in this process; reference digests from a process that never had one
-                    ('c08-two-different-configs-proto-len3', ['--set', 'proto', '--len', '3', '--two', '2'], 8)]
+                    ('c08-two-different-configs-proto-len2', ['--set', 'proto', '--len', '2', '--two', '2'], 4)]
     # (all operations to length 3 would be 100000 histories with a seven-utterance probe each: beyond the budget; C09 and C16 go there)
-    return [('c08-all-len2', ['--set', 'all', '--len', '2']), ('c08-core-len3', ['--set', 'core', '--len', '3']), ('c08-proto-len5', ['--set', 'proto', '--len', '5']),
+    return [('c08-all-len2', ['--set', 'all', '--len', '2', '--bigprobe', '1']), ('c08-core-len3', ['--set', 'core', '--len', '3']), ('c08-proto-len5', ['--set', 'proto', '--len', '5']),
             ('c08-two-core-len3', ['--set', 'core', '--len', '3', '--two', '1'])] + [
                 ('c08-synth-%s-core-len2' % sc, ['--set', 'core', '--len', '2', '--synth', sc], 2) for sc in ('semi', 'ms')] + [
                 ('c08-maxhmmpf5-proto-len4', ['--set', 'proto', '--len', '4', '--maxhmmpf', '5'], 8),
                 ('c08-maxhmmpf3-core-len3', ['--set', 'core', '--len', '3', '--maxhmmpf', '3'], 16),
                 ('c08-maxhmmpf10-all-len2', ['--set', 'all', '--len', '2', '--maxhmmpf', '10'], 8),
-                ('c08-batchstream-len4', ['--set', 'batchstream', '--len', '4'], 16),
+                ('c08-batchstream-len4', ['--set', 'batchstream', '--len', '4', '--bigprobe', '1'], 16),
                 ('c08-two-different-configs-core-len2', ['--set', 'core', '--len', '2', '--two', '2'], 16)]
 
 
